@@ -342,7 +342,7 @@ func (c *client) doIter(txn *badger.Txn, rec *TxnRec, pending map[string]model.V
 		rr.Opts = model.IterOpts{Reverse: io.Reverse, AllVersions: true, SinceTs: io.SinceTs, OnlyKey: append([]byte{}, k...)}
 		it := txn.NewKeyIterator(k, kio)
 		rr.Rewind = true
-		c.consume(it, &rr, 1000)
+		c.consume(it, &rr, 1000, rec.Update)
 		it.Close()
 		rec.Reads = append(rec.Reads, rr)
 		return
@@ -354,13 +354,15 @@ func (c *client) doIter(txn *badger.Txn, rec *TxnRec, pending map[string]model.V
 	if c.r.Intn(3) != 0 {
 		limit = 1 + c.r.Intn(6)
 	}
-	c.consume(it, &rr, limit)
+	c.consume(it, &rr, limit, rec.Update)
 	it.Close()
 	rec.Reads = append(rec.Reads, rr)
 }
 
-func (c *client) consume(it *badger.Iterator, rr *ReadRec, limit int) {
-	if c.r.Intn(3) == 0 {
+func (c *client) consume(it *badger.Iterator, rr *ReadRec, limit int, update bool) {
+	// (read-only transactions only: a Seek puts its key into the read set of an update transaction,
+	// and the conflict oracle must know every key that was read)
+	if !update && c.r.Intn(2) == 0 {
 		// the iterator is re-used: it first stands somewhere else (another Seek, a few steps, no item
 		// is looked at), then the recorded positioning follows, often backwards from there
 		it.Seek(c.key())
